@@ -18,7 +18,7 @@ class Cfg:
     special_leaves: bool = True
     loose_bounds: bool = True
     raw_leaves: bool = True
-    wild_ranges: bool = False
+    wild_ranges: bool = True
     xfer_prob: float = 0.0
     join_pred_prob: float = 0.4
     total_sort_prob: float = 0.7
